@@ -5,7 +5,7 @@ import numpy as np
 
 from vp.registry import contract
 from . import builders as B
-from .state import state_of, compare_states
+from .state import state_of, compare_states, independent
 
 TRUSTED = []
 ASSUMPTIONS = ['sqrt/norm by their defining contract (r >= 0, r^2 = x); rotations parametrised by (c,s) resp. unit quaternions']
@@ -63,6 +63,7 @@ def masking(ctx, cls, d, tl):
             # triangle are not "left without one" by the masking)
             compare_states(ctx, tag + '/all-true-mask-is-identity', state_of(res), before)
             ctx.check_true(tag + '/all-true-mask-returns-a-copy', res is not m)
+            independent(ctx, tag + '/result-shares-no-mutable-storage-with-the-receiver', res, m)
             return
         kept = [t for t in tris if all(vmask[v] for v in t)]
         used = sorted({v for t in kept for v in t})
@@ -82,6 +83,7 @@ def masking(ctx, cls, d, tl):
         if cls == 'TexturedTriMesh':
             ctx.check_eq(tag + '/tcoords-ride-with-vertices', res.tcoords.points, np.asarray(m.tcoords.points)[used])
             ctx.check_eq(tag + '/texture-carried', res.texture.pixels, m.texture.pixels)
+        independent(ctx, tag + '/result-shares-no-mutable-storage-with-the-receiver', res, m)
         ctx.check_true(tag + '/landmarks-carried', list(res.landmarks) == ['lm'])
         ctx.check_eq(tag + '/landmarks-unchanged', res.landmarks['lm'].points, m.landmarks['lm'].points)
 
